@@ -15,6 +15,9 @@ ASSUMPTIONS = A01 + [
     "every recorded offset (OnDisk hypothesis); input and output paths denote different files",
     "header.replace(f'{nvars}\\n', f'{nkept}\\n') on canonical header text yields hdrline(lo,hi,nkept) "
     "(string-level lemma, see parsers obligations)",
+    "Colander.strain parent: the per-file task construction and the scatter of the returned offsets are proved on a bounded "
+    "skeleton (3 boxes over 2 interleaved files, concrete file names, symbolic offsets and index ranges); the level loop and "
+    "header rewriting are covered by the header round-trip tasks (C14) and the run-time layer",
 ]
 TRUSTED = T01 + ["numpy: flatten(order='F').tobytes() == F-order serialisation (T-SER)", "pool.map ordered (assumed)"]
 
@@ -105,7 +108,8 @@ class StrainWorker(Task):
 
 
 def tasks(tier):
-    return [StrainWorker(3), StrainWorker(2)]
+    from props.colander_parents import parent_tasks
+    return [StrainWorker(3), StrainWorker(2)] + parent_tasks(tier)
 
 
 def canaries(tier):
@@ -116,7 +120,7 @@ def canaries(tier):
              ["parallel_strain_3d"]),
             ("strain2d: kept fields on wrong axis",
              [(f, "arr_out = arr[:, :, args[\"kept_fields\"]]", "arr_out = arr[:, args[\"kept_fields\"], :]")],
-             ["parallel_strain_2d"])]
+             ["parallel_strain_2d"])] + __import__("props.colander_parents", fromlist=["parent_canaries"]).parent_canaries()
 
 
 SCENARIO_TIMEOUT = 300
